@@ -17,6 +17,7 @@ import PsModel.IteratorC
 import PsModel.Calculator
 import PsModel.CmdLine
 import PsModel.Wheel
+import PsModel.PreSieveTables
 
 open Ps
 
@@ -533,6 +534,16 @@ def crossLine (op : String) : String :=
     | _, _, _, _, _ => "bad-op"
   | _ => "bad-op"
 
+def presieveLine (op : String) : String :=
+  match (op.splitOn " ").filter (· ≠ "") with
+  | ["presieve", l, n] =>
+    match l.toNat?, n.toNat? with
+    | some l, some n =>
+      let text := String.join ((List.range n).map (fun o => toString (PreSieve.preSieveFinal PreSieve.allTables l o) ++ ","))
+      s!"fnv={fnv1a text}"
+    | _, _ => "bad-op"
+  | _ => "bad-op"
+
 partial def lineLoop (h : IO.FS.Stream) (f : String → String) : IO Unit := do
   let line ← h.getLine
   if line.isEmpty then return ()
@@ -558,6 +569,7 @@ def main (args : List String) : IO UInt32 := do
     | "iterc" => itercLoop s CIter.init; return 0
     | "calc" => lineLoop s calcLine; return 0
     | "wheel" => lineLoop s wheelLine; return 0
+    | "presieve" => lineLoop s presieveLine; return 0
     | "cross" => lineLoop s crossLine; return 0
     | "cli" => lineLoop s cliLine; return 0
     | "fiter" => fiterLoop s (Iter.mk' 0 umax); return 0
